@@ -151,6 +151,16 @@ def evalFuel (prog : List Clause) (inputs : List (Name × List Tup)) : Nat :=
 def evalProg (prog : List Clause) (inputs : List (Name × List Tup)) : Name → List Tup :=
   look inputs (iter prog inputs (evalFuel prog inputs) ((heads prog).map fun n => (n, [])))
 
+def d0 (prog : List Clause) : List (Name × List Tup) := (heads prog).map fun n => (n, ([] : List Tup))
+
+/-- the derived tables `evalProg` reads (`evalProg prog inputs = look inputs (res prog inputs)`). -/
+def res (prog : List Clause) (inputs : List (Name × List Tup)) : List (Name × List Tup) :=
+  iter prog inputs (evalFuel prog inputs) (d0 prog)
+
+/-- the evaluation reached a fix-point within its fuel. -/
+def conv (prog : List Clause) (inputs : List (Name × List Tup)) : Bool :=
+  decide (tstep prog inputs (res prog inputs) = res prog inputs)
+
 /-- `?rel(args)`: the distinct stored tuples matching the pattern (constants, repeated variables),
     all columns (handler.rs `transform_query_shorthand`: `__query__(hv…) <- rel(hv…), _ci = k`). -/
 def answer (db : Name → List Tup) (q : Atom) : List Tup :=
@@ -557,6 +567,38 @@ def stepSafe (B : List Name) (s : St) : Step → Bool
   | .mat n ar => !(B.contains n) && stepWellUsed s (.mat n ar) &&
       (match s.inc with | some i => edgesOk s i n | none => true)
   | _ => true
+
+/-- every evaluation the state can be asked for reached its fix-point (all rules over the facts, the
+    snapshot's prefix over its inputs, each head's own clauses over the facts). -/
+def convState (s : St) : Bool :=
+  conv (allRules s.catalog) s.facts && conv s.snap.rules s.snap.inputs &&
+  (akeys s.catalog).all fun n => conv (clausesNow s n) s.facts
+
+/-- body relations are base relations or the clause's own head (self-recursion). -/
+def bodyOk (B : List Name) (c : Clause) : Bool :=
+  (bodyRels c).all fun r => B.contains r || r == c.head.rel
+
+def edgesOkRec (s : St) (i : Inc) (n : Name) : Bool :=
+  (clausesNow s n).all fun c => (bodyRels c).all fun r => r == n || ((aget i.b2d r).getD []).contains n
+
+/-- `stepSafe` with self-recursive rules admitted. -/
+def stepSafeRec (B : List Name) (s : St) : Step → Bool
+  | .ins r _ => B.contains r
+  | .reg c => !(B.contains c.head.rel) && bodyOk B c && notValid s c.head.rel
+  | .rep n _ c => c.head.rel == n && !(B.contains n) && bodyOk B c && notValid s n
+  | .rmc n _ => notValid s n
+  | .clr n => notValid s n
+  | .drel r => noValidReads s r
+  | .mat n ar => !(B.contains n) && stepWellUsed s (.mat n ar) &&
+      (match s.inc with | some i => edgesOkRec s i n | none => true)
+  | _ => true
+
+/-- `safe` for the self-recursive fragment; additionally every visited state's evaluations converged
+    (decidable; for non-recursive rule sets it is a theorem, `conv_oneLevel`). -/
+def safeRec (B : List Name) : St → List Step → Bool
+  | _, [] => true
+  | s, st :: l =>
+    stepSafeRec B s st && convState (step codeAutoMat s st).1 && safeRec B (step codeAutoMat s st).1 l
 
 def safe (B : List Name) : St → List Step → Bool
   | _, [] => true
